@@ -754,6 +754,47 @@ class SemEval:
                              "then %s %s" % (a.tok, b.tok), lambda: a.d >> b.d,
                              a.nops + b.nops + 1)
 
+    on_problem = None      # callable(signature, case text, description)
+
+    def then_n(self, recv, args, form="method"):
+        """`recv.then(*args)` — the n-ary calling convention, which every diagram class delegates
+        to cat.Arrow.then (monoidal.py:384-385) — in method form, as the function of the receiver's
+        class, or (one argument) as `<<`.  The model folds its binary `then` over the arguments,
+        checking every junction, the first one included."""
+        text = {"method": "%s.then(%s)", "class": "type(%s).then(%s)", "rop": "(%s).then via <<(%s)"}[
+            form] % (recv.text, ", ".join(a.text for a in args))
+        tok = "thenN %s %s" % (recv.tok, " ".join([str(len(args))] + [a.tok for a in args]))
+
+        def thunk():
+            ds = [a.d for a in args]
+            if form == "class":
+                out = type(recv.d).then(recv.d, *ds)
+            elif form == "rop":
+                out = ds[0] << recv.d
+            else:
+                out = recv.d.then(*ds)
+            scan, prev = ty_key(recv.d.cod), recv.d
+            for k, x in enumerate(ds):      # the property: an ill-typed request is refused
+                if ty_key(x.dom) != scan and self.on_problem is not None and self.fam.model_refusals:
+                    self.on_problem(
+                        "illtyped_request_accepted:thenN:" + self.fam.name, text,
+                        "accepted although argument %d starts on %r and what comes before it ends "
+                        "on %r; handed back %r : %r -> %r" % (k, x.dom, prev.cod, out, out.dom,
+                                                              out.cod))
+                    break
+                scan, prev = ty_key(x.cod), x
+            return out
+        return self.modelled("thenN", text, tok, thunk, recv.nops + sum(a.nops for a in args) + 1)
+
+    def tensor_n(self, recv, args, form="method"):
+        text = "%s.tensor(%s)" % (recv.text, ", ".join(a.text for a in args))
+        tok = "tensorN %s %s" % (recv.tok, " ".join([str(len(args))] + [a.tok for a in args]))
+        return self.modelled(
+            "tensorN", text, tok,
+            (lambda: type(recv.d).tensor(recv.d, *[a.d for a in args])) if form == "class"
+            else (lambda: recv.d.tensor(*[a.d for a in args])),
+            recv.nops + sum(a.nops for a in args) + 1)
+
     def tensor(self, a, b):
         return self.modelled("tensor", "(%s @ %s)" % (a.text, b.text),
                              "tensor %s %s" % (a.tok, b.tok), lambda: a.d @ b.d,
@@ -883,6 +924,8 @@ class SemRun:
         on_result.seen = len(run.monitor_hits)
         ev = SemEval(fam, on_result)
         ev.resync = lambda: setattr(on_result, "seen", len(run.monitor_hits))
+        ev.on_problem = lambda sig, text, why: run.rep.fail(
+            sig, dict(family=fam.name, sequence=seq, expr=text[:3000]), why[:1500])
         return ev
 
     def recheck_history(self):
@@ -1028,6 +1071,26 @@ def battery(rep, fam, ev, v, rng, full):
                                                 lambda: fam.id(list(v.d.cod.objects))), v)),
               lambda: ev.normal_form(v, rng.random() < 0.5) if n <= 6 else None]
 
+    def ident(objs):
+        return ev.leaf("%s.id(%r)" % (fam.name, objs), lambda: fam.id(list(objs)))
+
+    def nary():
+        """Id(dom).then(v, ..) idiom and its ill-typed variants: the broken junction is the one
+        after the identity, or a later one."""
+        dom, cod = list(v.d.dom.objects), list(v.d.cod.objects)
+        form = rng.choice(["method", "method", "class"])
+        A(lambda: ev.then_n(ident(dom), [v, ident(cod)], form))
+        A(lambda: ev.then_n(v, [], form))
+        A(lambda: ev.then_n(ident(dom), [v], rng.choice(["method", "class", "rop"])))
+        extra = fam.random_atoms(rng, 1, 1)
+        wrong = rng.choice([dom + extra, extra + dom, dom[1:]] if dom else [extra])
+        A(lambda: ev.then_n(ident(wrong), [v, ident(cod)], form))          # first junction
+        A(lambda: ev.then_n(ident(dom), [v, ident(cod + extra)], form))    # a later one
+        A(lambda: ev.then_n(ident(wrong), [v], form))
+        A(lambda: ev.tensor_n(v, [ident(extra), v][:rng.randint(0, 2)], form if form != "rop"
+                              else "method"))
+    picks.append(nary)
+
     def interchange_sweep():
         cur = v
         for i in range(min(n - 1, 6)):
@@ -1086,7 +1149,7 @@ def random_sequence(rep, fam, ev, rng, n_steps):
         unary += ["transpose"]
     unary += ["extra"] if fam.unary_extra() else []
     binary = ["then_fresh", "then_fresh", "then_pool", "tensor_pool", "tensor_fresh", "tensor_self",
-              "then_malformed"]
+              "then_malformed", "then_n", "then_n", "tensor_n"]
     for _ in range(n_steps):
         v = rng.choice(pool[-3:]) if rng.random() < 0.7 else rng.choice(pool)
         n = len(v.d.boxes)
@@ -1152,13 +1215,49 @@ def random_sequence(rep, fam, ev, rng, n_steps):
                 out = A(lambda: ev.tensor(v, w) if rng.random() < 0.5 else ev.tensor(w, v))
         elif op == "tensor_self":
             out = A(lambda: ev.tensor(v, v))
+        elif op == "then_n":
+            # recv.then(a_1..a_k), k in 0..3, receiver an identity half of the time; one junction
+            # (any, the first included) broken in a third of the requests
+            k = rng.choice([0, 1, 2, 2, 3])
+            bad_at = rng.randrange(k) if k and rng.random() < 0.35 else -1
+            recv = v
+            if rng.random() < 0.5:
+                objs = list(v.d.dom.objects)
+                recv = A(lambda: ev.leaf("%s.id(%r)" % (fam.name, objs), lambda: fam.id(objs)))
+                chain_from = objs
+            else:
+                chain_from = list(v.d.cod.objects)
+            if recv is not None:
+                args, scan = [], chain_from
+                if recv is not v and k:
+                    args, scan, k = [v], list(v.d.cod.objects), k - 1
+                    if bad_at == 0:
+                        extra = fam.random_atoms(rng, 1, 1)
+                        recv = A(lambda: ev.leaf("%s.id(%r)" % (fam.name, objs + extra),
+                                                 lambda: fam.id(objs + extra)))
+                    bad_at -= 1
+                for j in range(k):
+                    start = scan + fam.random_atoms(rng, 1, 1) if j == bad_at else scan
+                    dom, cod, boxes, offsets = grow(fam, rng, start, rng.randint(0, 2))
+                    w = A(lambda: build_leaf(fam, ev, dom, cod, boxes, offsets, "constructor"))
+                    if w is None:
+                        break
+                    args.append(w)
+                    scan = cod
+                if recv is not None:
+                    out = A(lambda: ev.then_n(recv, args, rng.choice(
+                        ["method", "method", "class"] + (["rop"] if len(args) == 1 else []))))
+        elif op == "tensor_n":
+            ws = [rng.choice(pool) for _ in range(rng.choice([0, 1, 2, 3]))]
+            if sum(len(w.d.boxes) for w in ws) <= 30:
+                out = A(lambda: ev.tensor_n(v, ws, rng.choice(["method", "class"])))
         if out is not None:
             pool.append(out)
 
 
 def cat_arrow_stream(rep, rng, n_cases):
-    """Class `cat`: plain arrows of boxes between objects (oracle only; the model's cat.Arrow is
-    the layer arrow of a diagram, compared in every other stream)."""
+    """Class `cat`: plain arrows of boxes between objects, a fixed oracle-only battery kept from
+    before harness/catfam.py made `cat` a full family with its own model correspondence."""
     from discopy import cat
     obs = [cat.Ob(n) for n in "abc"]
 
